@@ -80,12 +80,61 @@ func frameSites(p *Prog) []frameSite {
 	return out
 }
 
+// resolveCaptured: v reads a local variable (possibly captured by the closure) that is
+// assigned exactly once: returns the assigned value and the store.
+func resolveCaptured(v ssa.Value) (ssa.Value, *ssa.Store) {
+	u, ok := v.(*ssa.UnOp)
+	if !ok || u.Op != token.MUL {
+		return nil, nil
+	}
+	var cell ssa.Value
+	switch x := u.X.(type) {
+	case *ssa.Alloc:
+		cell = x
+	case *ssa.FreeVar:
+		fn := x.Parent()
+		if fn == nil || fn.Parent() == nil {
+			return nil, nil
+		}
+		idx := -1
+		for i, fv := range fn.FreeVars {
+			if fv == x {
+				idx = i
+			}
+		}
+		Instrs(fn.Parent(), func(in ssa.Instruction) {
+			if mc, ok := in.(*ssa.MakeClosure); ok && mc.Fn == ssa.Value(fn) && idx >= 0 && idx < len(mc.Bindings) {
+				cell = mc.Bindings[idx]
+			}
+		})
+	}
+	al, ok := cell.(*ssa.Alloc)
+	if !ok {
+		return nil, nil
+	}
+	var only *ssa.Store
+	n := 0
+	for _, ref := range *al.Referrers() {
+		if st, ok := ref.(*ssa.Store); ok && st.Addr == ssa.Value(al) {
+			only = st
+			n++
+		}
+	}
+	if n != 1 {
+		return nil, nil
+	}
+	return only.Val, only
+}
+
 func mentionsField(v ssa.Value, field string, d int) bool {
 	if d > 6 || v == nil {
 		return false
 	}
 	if _, f, _, ok := FieldOf(v); ok && f == field {
 		return true
+	}
+	if rv, _ := resolveCaptured(v); rv != nil {
+		return mentionsField(rv, field, d+1)
 	}
 	switch x := v.(type) {
 	case *ssa.BinOp:
@@ -104,21 +153,38 @@ func mentionsField(v ssa.Value, field string, d int) bool {
 	return false
 }
 
-// splitCounter: v == load(counter) + rest  ->  rest (nil when v is the bare load).
-func splitCounter(v ssa.Value, field string) (rest ssa.Value, ok bool) {
+// splitCounter: v == load(counter) + rest  ->  rest (nil when v is the bare load).  The load may
+// be a snapshot: a local assigned once from the counter field; snap is then that load.
+func splitCounter(v ssa.Value, field string) (rest ssa.Value, snap ssa.Instruction, ok bool) {
+	isCtr := func(x ssa.Value) (ssa.Instruction, bool) {
+		x = stripConv(x)
+		if _, f, _, okf := FieldOf(x); okf && f == field {
+			return nil, true
+		}
+		if rv, st := resolveCaptured(x); rv != nil {
+			rv = stripConv(rv)
+			if _, f, _, okf := FieldOf(rv); okf && f == field {
+				if ld, isI := rv.(ssa.Instruction); isI {
+					return ld, true
+				}
+				return st, true
+			}
+		}
+		return nil, false
+	}
 	v = stripConv(v)
-	if _, f, _, okf := FieldOf(v); okf && f == field {
-		return nil, true
+	if sn, okc := isCtr(v); okc {
+		return nil, sn, true
 	}
 	if bo, isB := v.(*ssa.BinOp); isB && bo.Op == token.ADD {
-		if _, f, _, okf := FieldOf(stripConv(bo.X)); okf && f == field {
-			return bo.Y, true
+		if sn, okc := isCtr(bo.X); okc {
+			return bo.Y, sn, true
 		}
-		if _, f, _, okf := FieldOf(stripConv(bo.Y)); okf && f == field {
-			return bo.X, true
+		if sn, okc := isCtr(bo.Y); okc {
+			return bo.X, sn, true
 		}
 	}
-	return nil, false
+	return nil, nil, false
 }
 
 // frameRule checks one source; rule is the rule id to report under.
@@ -132,7 +198,7 @@ func frameRule(p *Prog, r *Report, rule string, want func(fs frameSite) bool) in
 		r.Fn(FuncName(fs.fn))
 		name := FuncName(fs.fn)
 		// stamped value = counter + X
-		x, ok := splitCounter(fs.stamp.Val, "nextFrameNum")
+		x, snap, ok := splitCounter(fs.stamp.Val, "nextFrameNum")
 		if !ok {
 			r.Bad(rule, name+": the stamped frame number is the running counter (plus a block-local term)", p.InstrPos(fs.stamp), "the first-frame value is not built from the running counter")
 			continue
@@ -146,7 +212,7 @@ func frameRule(p *Prog, r *Report, rule string, want func(fs frameSite) bool) in
 			r.Bad(rule, name+": the running counter advances by the block length", p.InstrPos(fs.stamp), "the frame counter is never advanced: every block is stamped with the same frame number")
 			continue
 		}
-		y, ok := splitCounter(cst.Val, "nextFrameNum")
+		y, _, ok := splitCounter(cst.Val, "nextFrameNum")
 		if !ok || y == nil {
 			r.Bad(rule, name+": the running counter advances by the block length", p.InstrPos(cst), "the counter is not advanced as counter + block length")
 			continue
@@ -199,7 +265,11 @@ func frameRule(p *Prog, r *Report, rule string, want func(fs frameSite) bool) in
 		r.Check(okB, rule, name+": counter advance minus stamp offset is exactly the block length", p.InstrPos(cst), "advance - offset = "+desc,
 			"the counter advances by "+Y.String()+" while the block is stamped at counter + "+X.String()+": the difference "+desc+" is not the block length, so after such a block the frame numbers of later blocks overlap earlier ones (go backwards) or skip")
 		// the store follows every stamp: not inside the per-channel loop/closure, and after the join if stamps are in goroutines
-		if fs.stampFn != fs.fn {
+		if snap != nil {
+			// the stamp uses a snapshot of the counter: it must be taken before the advance
+			r.Check(snap.Parent() == fs.fn && InstrDominates(snap, cst) && !InLoopWith(cst, snap), rule, name+": the counter snapshot used for stamping is taken before the counter advances", p.InstrPos(cst), "snapshot load dominates the advance",
+				"the blocks are stamped with a copy of the counter that is not taken before this block's advance: the block carries the frame number of the next block")
+		} else if fs.stampFn != fs.fn {
 			var wait ssa.Instruction
 			Instrs(fs.fn, func(in ssa.Instruction) {
 				if IsCallTo(in, "(*sync.WaitGroup).Wait") {
